@@ -87,3 +87,7 @@ Theorem C03_mcgroupstatus_constructor_refuses_short : forall data,
 Proof. exact mcstatus_new_refuses_short. Qed.
 Theorem C03_constructor_matches_iterator : forall data v, mcstatus_new data = Some v -> length v = var_len 1 data.
 Proof. exact mcstatus_new_matches_var_len. Qed.
+Theorem C03_channel_mask_constructor : forall n data,
+  (forall v, chmask_new n data = Some v -> length v = n /\ v = firstn n data) /\
+  ((n <= length data)%nat -> exists v, chmask_new n data = Some v) /\ ((length data < n)%nat -> chmask_new n data = None).
+Proof. intros n data. split; [intros v; apply chmask_new_view|apply chmask_new_total]. Qed.
